@@ -247,6 +247,12 @@ CompleteItems(C, it, items, path, ids, i) ==
 
 RootType(C) == Roots[C.nodes[C.op].optype]
 
+\* rootId: identity of the root value (initial value / subscription payload)
+BigStepR(C, rootId) ==
+  LET r == ExecSel(C, RootType(C), <<C.op>>, <<>>, rootId) IN
+  [data |-> IF r.st = "fail" THEN Null ELSE r.v, errs |-> r.errs, calls |-> r.calls, pos |-> r.pos,
+   nulls |-> IF r.st = "fail" THEN r.nulls \cup {[at |-> <<>>, why |-> r.up]} ELSE r.nulls]
+
 BigStep(C) ==
   LET r == ExecSel(C, RootType(C), <<C.op>>, <<>>, "") IN
   [data |-> IF r.st = "fail" THEN Null ELSE r.v, errs |-> r.errs, calls |-> r.calls, pos |-> r.pos,
